@@ -450,7 +450,7 @@ symbol_t* value, ArbitrationState* arbitrationState) {
         valueSet = true;
         break;
       case ENH_RES_RESETTED:
-        if (arbitrationState && *arbitrationState != as_none) {
+        if (arbitrationState && *arbitrationState == as_running) {
           *arbitrationState = as_error;
           m_arbitrationMaster = SYN;
           m_arbitrationCheck = 0;
